@@ -80,7 +80,9 @@ func (e *Engine) paramValues(fn *ssa.Function, params []string) []Value {
 
 // runPath executes one path; returns how it ended.
 func (e *Engine) runPath(fn *ssa.Function, args []Value) (end pathEnd) {
+	e.inPath = true
 	defer func() {
+		e.inPath = false
 		if r := recover(); r != nil {
 			if pe, ok := r.(pathEnd); ok {
 				end = pe
